@@ -516,6 +516,42 @@ fn def_method_impl(
                         }
                     };
 
+                    // note: `self` has been moved into the surrogate at this point
+                    let unmock_cont_arm = attr.get_unmock_fn(index).map(
+                        |UnmockFn {
+                             path: unmock_path,
+                             params: unmock_params,
+                         }| {
+                            let unmock_expr = match unmock_params {
+                                None => quote! {
+                                    #unmock_path(#self_to_delegator, #fn_params) #opt_dot_await
+                                },
+                                Some(UnmockFnParams { params }) => {
+                                    let surrogate_self = match &receiver {
+                                        Receiver::Pin { surrogate_self } => quote! {
+                                            ::core::pin::Pin::new(&mut *#surrogate_self)
+                                        },
+                                        Receiver::MutRef { surrogate_self } => quote! {
+                                            (&mut *#surrogate_self)
+                                        },
+                                        _ => quote! { self },
+                                    };
+                                    let params = util::replace_self_tokens(
+                                        params.to_token_stream(),
+                                        &surrogate_self,
+                                    );
+                                    quote! {
+                                        #unmock_path(#params) #opt_dot_await
+                                    }
+                                }
+                            };
+
+                            quote! {
+                                #prefix::private::Continuation::Unmock => #unmock_expr,
+                            }
+                        },
+                    );
+
                     let default_impl_input_eval_arm = if default_delegator_call.is_some() {
                         quote! {
                             #prefix::private::Continuation::CallDefaultImpl => {
@@ -537,6 +573,7 @@ fn def_method_impl(
                             #prefix::private::Continuation::Answer(__answer_fn) => {
                                 __answer_fn(__self, #fn_params)
                             }
+                            #unmock_cont_arm
                             #default_impl_input_eval_arm
                             cont => cont.report(__self)
                         }
